@@ -198,6 +198,25 @@ func (x *Exec) loopEntry(s *State, b *ssa.BasicBlock, ord int) bool {
 	invs := loopClauses(fc, "invariant", ord)
 	decs := loopClauses(fc, "decreases", ord)
 	x.applyInstances(s, loopClauses(fc, "apply", ord))
+	// at(L, e) inside an invariant of L itself relates the end of an iteration to its head; on entry
+	// the head is the entry state
+	snapHeap := func() {
+		snap := make(map[string]T, len(s.heap))
+		for k, v := range s.heap {
+			snap[k] = v
+		}
+		if fr.loopHeads == nil {
+			fr.loopHeads = map[int]map[string]T{}
+		} else {
+			m := make(map[int]map[string]T, len(fr.loopHeads)+1)
+			for k, v := range fr.loopHeads {
+				m[k] = v
+			}
+			fr.loopHeads = m
+		}
+		fr.loopHeads[ord] = snap
+	}
+	snapHeap()
 	for i, cl := range invs {
 		env := x.specEnvFor(s, "loop invariant")
 		t, err := env.evalBool(cl.Expr)
@@ -239,6 +258,8 @@ func (x *Exec) loopEntry(s *State, b *ssa.BasicBlock, ord int) bool {
 		}
 	}
 	x.reassumeCaptures(s)
+	// the state at the head of this iteration, for at(L, e)
+	snapHeap()
 	for _, cl := range invs {
 		env := x.specEnvFor(s, "loop invariant")
 		t, err := env.evalBool(cl.Expr)
@@ -246,15 +267,6 @@ func (x *Exec) loopEntry(s *State, b *ssa.BasicBlock, ord int) bool {
 			s.assume(t)
 		}
 	}
-	// the state at the head of this iteration, for at(L, e)
-	snap := make(map[string]T, len(s.heap))
-	for k, v := range s.heap {
-		snap[k] = v
-	}
-	if fr.loopHeads == nil {
-		fr.loopHeads = map[int]map[string]T{}
-	}
-	fr.loopHeads[ord] = snap
 	x.applyInstances(s, loopClauses(fc, "apply", ord))
 	var ms []T
 	for _, cl := range decs {
@@ -294,6 +306,7 @@ func (x *Exec) loopBackEdge(s *State, b *ssa.BasicBlock, ord int) {
 		env := x.specEnvFor(s, "loop invariant")
 		t, err := env.evalBool(cl.Expr)
 		if err != nil {
+			x.unsupported("%s loop %d invariant at the back edge: %v", x.p.Names[fr.fn], ord, err)
 			continue
 		}
 		x.oblige(s, "invariant-preserved", fmt.Sprintf("loop%d#%s", ord, clauseLabel(cl, i)), t, b.Instrs[0].Pos(), cl.Props)
@@ -306,6 +319,7 @@ func (x *Exec) loopBackEdge(s *State, b *ssa.BasicBlock, ord int) {
 		env := x.specEnvFor(s, "loop decreases")
 		v, err := env.evalInt(cl.Expr)
 		if err != nil {
+			x.unsupported("%s loop %d decreases at the back edge: %v", x.p.Names[fr.fn], ord, err)
 			continue
 		}
 		z := x.ilit(0)
